@@ -42,6 +42,12 @@ func (m *monC20) OnStep(r *Runner, st *Step) {
 	m.step++
 	feedLedger(&m.L, st)
 	s := st.Post
+	// large states (floods: several hundred pending entries and delegation records): every query is compared on
+	// every fourth step and right after every slash, so that one such run stays within seconds
+	if len(s.UndelQueue)+len(s.Dels) > 120 && m.step%4 != 0 && len(st.Slashes) == 0 {
+		r.Probe("c20_large_state_step_skipped")
+		return
+	}
 	ctx := r.Branch()
 	// reference enumeration of unbonding entries per delegator
 	type ent struct {
@@ -60,6 +66,13 @@ func (m *monC20) OnStep(r *Runner, st *Step) {
 		}
 	}
 	dels := r.W.Delegators
+	// large states (floods): the per-delegator sections look at one delegator per step, in rotation, so that a
+	// step stays affordable; every delegator is still looked at every few steps
+	if len(s.UndelQueue)+len(s.Dels) > 120 && len(dels) > 1 {
+		i := m.step % len(dels)
+		dels = dels[i : i+1]
+		r.Probe("c20_large_state_rotating_delegator")
+	}
 	for _, d := range dels {
 		da := d.Addr.String()
 		ents := byDel[da]
@@ -254,7 +267,7 @@ func (m *monC20) OnStep(r *Runner, st *Step) {
 			var key []byte
 			for i := 0; i < 100; i++ {
 				req := &alliancetypes.QueryAlliancesDelegationsRequest{DelegatorAddr: da}
-				if lim := pat[i%len(pat)]; lim > 0 {
+				if lim := pat[i%len(pat)]; lim > 0 || key != nil {
 					req.Pagination = &query.PageRequest{Limit: lim, Key: key}
 				}
 				resp, err := r.QS.AlliancesDelegation(ctx, req)
@@ -272,7 +285,7 @@ func (m *monC20) OnStep(r *Runner, st *Step) {
 						return
 					}
 				}
-				if pat[0] == 0 || resp.Pagination == nil || len(resp.Pagination.NextKey) == 0 {
+				if resp.Pagination == nil || len(resp.Pagination.NextKey) == 0 {
 					break
 				}
 				key = resp.Pagination.NextKey
@@ -304,7 +317,7 @@ func (m *monC20) OnStep(r *Runner, st *Step) {
 				failed := false
 				for i := 0; i < 100; i++ {
 					req := &alliancetypes.QueryAlliancesDelegationByValidatorRequest{DelegatorAddr: da, ValidatorAddr: v}
-					if lim > 0 {
+					if lim > 0 || key != nil {
 						req.Pagination = &query.PageRequest{Limit: lim, Key: key}
 					}
 					rv, err := r.QS.AlliancesDelegationByValidator(ctx, req)
@@ -324,7 +337,7 @@ func (m *monC20) OnStep(r *Runner, st *Step) {
 							return
 						}
 					}
-					if lim == 0 || rv.Pagination == nil || len(rv.Pagination.NextKey) == 0 {
+					if rv.Pagination == nil || len(rv.Pagination.NextKey) == 0 {
 						break
 					}
 					key = rv.Pagination.NextKey
@@ -390,7 +403,7 @@ func (m *monC20) redelsByDelegator(r *Runner, ctx sdk.Context, del string, limit
 	var key []byte
 	for i := 0; i < 1000; i++ {
 		req := &alliancetypes.QueryAllianceRedelegationsByDelegatorRequest{DelegatorAddr: del}
-		if limit > 0 {
+		if limit > 0 || key != nil {
 			req.Pagination = &query.PageRequest{Limit: limit, Key: key}
 		}
 		resp, err := r.QS.AllianceRedelegationsByDelegator(ctx, req)
@@ -400,7 +413,7 @@ func (m *monC20) redelsByDelegator(r *Runner, ctx sdk.Context, del string, limit
 		for _, e := range resp.Redelegations {
 			out = append(out, fmt.Sprintf("%s|%s|%s|%s|%d", e.SrcValidatorAddress, e.DstValidatorAddress, e.Balance.Denom, e.Balance.Amount, e.CompletionTime.UnixNano()))
 		}
-		if limit == 0 || resp.Pagination == nil || len(resp.Pagination.NextKey) == 0 {
+		if resp.Pagination == nil || len(resp.Pagination.NextKey) == 0 {
 			break
 		}
 		key = resp.Pagination.NextKey
@@ -415,7 +428,7 @@ func (m *monC20) allDelegations(r *Runner, ctx sdk.Context, limit uint64) ([]str
 	var key []byte
 	for i := 0; i < 1000; i++ {
 		req := &alliancetypes.QueryAllAlliancesDelegationsRequest{}
-		if limit > 0 {
+		if limit > 0 || key != nil {
 			req.Pagination = &query.PageRequest{Limit: limit, Key: key}
 		}
 		resp, err := r.QS.AllAlliancesDelegations(ctx, req)
@@ -427,7 +440,7 @@ func (m *monC20) allDelegations(r *Runner, ctx sdk.Context, limit uint64) ([]str
 			out = append(out, k)
 			bal[k] = x.Balance.Amount
 		}
-		if limit == 0 || resp.Pagination == nil || len(resp.Pagination.NextKey) == 0 {
+		if resp.Pagination == nil || len(resp.Pagination.NextKey) == 0 {
 			break
 		}
 		key = resp.Pagination.NextKey
